@@ -333,4 +333,41 @@ theorem lockupIteratorsListing_pinned : Gen.Keys.lockupIteratorsListing =
    "  store.Set(endKey, lockIDBz)",
    "  return nil"] := rfl
 
+-- x/dymns store keys --------------------------------------------------------------------------------------
+
+theorem dymNameKey_eq : Gen.Keys.dymNameKey = dymNameKey := by funext x; rfl
+theorem dymNamesOwnedByAccountRvlKey_eq : Gen.Keys.dymNamesOwnedByAccountRvlKey = dymNamesOwnedByAccountRvlKey := by
+  funext x; rfl
+theorem configuredAddressToDymNamesIncludeRvlKey_eq :
+    Gen.Keys.configuredAddressToDymNamesIncludeRvlKey = configuredAddressToDymNamesIncludeRvlKey := by funext x; rfl
+theorem fallbackAddressToDymNamesIncludeRvlKey_eq :
+    Gen.Keys.fallbackAddressToDymNamesIncludeRvlKey = fallbackAddressToDymNamesIncludeRvlKey := by funext x; rfl
+theorem sellOrderKey_eq : Gen.Keys.sellOrderKey = sellOrderKey := by funext x t; cases t <;> rfl
+theorem keyCountBuyOrders_eq : Gen.Keys.keyCountBuyOrders = keyCountBuyOrders := rfl
+theorem buyOrderKey_eq : Gen.Keys.buyOrderKey = buyOrderKey := by funext x; rfl
+theorem buyerToOrderIdsRvlKey_eq : Gen.Keys.buyerToOrderIdsRvlKey = buyerToOrderIdsRvlKey := by funext x; rfl
+theorem dymNameToBuyOrderIdsRvlKey_eq : Gen.Keys.dymNameToBuyOrderIdsRvlKey = dymNameToBuyOrderIdsRvlKey := by
+  funext x; rfl
+theorem aliasToBuyOrderIdsRvlKey_eq : Gen.Keys.aliasToBuyOrderIdsRvlKey = aliasToBuyOrderIdsRvlKey := by funext x; rfl
+theorem rollAppIdToAliasesKey_eq : Gen.Keys.rollAppIdToAliasesKey = rollAppIdToAliasesKey := by funext x; rfl
+theorem aliasToRollAppIdRvlKey_eq : Gen.Keys.aliasToRollAppIdRvlKey = aliasToRollAppIdRvlKey := by funext x; rfl
+
+/-- the family prefixes of the model (`DymnsKey.familyPrefix`) are the source's `KeyPrefix…` values -/
+theorem dymns_family_prefixes :
+    (DymnsKey.dymName []).familyPrefix = Gen.Keys.dymnsKeyPrefixDymName ∧
+    (DymnsKey.ownedBy []).familyPrefix = Gen.Keys.dymnsKeyPrefixRvlDymNamesOwnedByAccount ∧
+    (DymnsKey.cfgAddr []).familyPrefix = Gen.Keys.dymnsKeyPrefixRvlConfiguredAddressToDymNamesInclude ∧
+    (DymnsKey.fallback []).familyPrefix = Gen.Keys.dymnsKeyPrefixRvlFallbackAddressToDymNamesInclude ∧
+    (DymnsKey.sellOrder [] .name).familyPrefix = Gen.Keys.dymnsKeyPrefixDymNameSellOrder ∧
+    (DymnsKey.sellOrder [] .alias).familyPrefix = Gen.Keys.dymnsKeyPrefixAliasSellOrder ∧
+    DymnsKey.countBuyOrders.familyPrefix = Gen.Keys.keyCountBuyOrders ∧
+    (DymnsKey.buyOrder []).familyPrefix = Gen.Keys.dymnsKeyPrefixBuyOrder ∧
+    (DymnsKey.buyer []).familyPrefix = Gen.Keys.dymnsKeyPrefixRvlBuyerToBuyOrderIds ∧
+    (DymnsKey.nameToBuyOrders []).familyPrefix = Gen.Keys.dymnsKeyPrefixRvlDymNameToBuyOrderIds ∧
+    (DymnsKey.aliasToBuyOrders []).familyPrefix = Gen.Keys.dymnsKeyPrefixRvlAliasToBuyOrderIds ∧
+    (DymnsKey.rollappToAliases []).familyPrefix = Gen.Keys.dymnsKeyPrefixRollAppIdToAliases ∧
+    (DymnsKey.aliasToRollapp []).familyPrefix = Gen.Keys.dymnsKeyPrefixRvlAliasToRollAppId ∧
+    Gen.Keys.dymnsKeyPrefixSellOrder = [5] :=
+  ⟨rfl, rfl, rfl, rfl, rfl, rfl, rfl, rfl, rfl, rfl, rfl, rfl, rfl, rfl⟩
+
 end DymVerif.GenEq
